@@ -7,6 +7,7 @@ CONSTANTS
   NoteSet = {0, 1}
   MaxNet = 8
   MaxBlobs = 8
+  MaxClock = 3
   Weaken = "none"
   Depth = 28
 INVARIANTS PrintIt
